@@ -133,4 +133,14 @@ theorem unstable_readable_immediately (s s' : FS) (c c' : Choice) (fh : Bytes) (
     rw [hsz] at this
     rw [this]
 
+/-! ### COMMIT (model M9c of `obj.Log`, Props/C01): since 0fea8f5 a stable transaction of its own -/
+
+/-- COMMIT makes everything acknowledged before it durable in every state the log can be in —
+    also right after a transaction the journal refused, where `Flush()` (what COMMIT used to call)
+    makes nothing durable (`Props/C01.flush_forgets_after_a_refusal`). -/
+theorem commit_makes_everything_before_it_durable (es es' : List GoNfsd.Model.ObjLog.Ev) :
+    let t := GoNfsd.Model.ObjLog.step (GoNfsd.Model.ObjLog.run {} es) (.commit true true)
+    t.durable = t.next ∧ t.next ≤ (GoNfsd.Model.ObjLog.run t es').durable :=
+  GoNfsd.Props.C01.stable_commit_is_durable_whatever_was_remembered es es'
+
 end GoNfsd.Props.C07
